@@ -199,11 +199,11 @@ def shard(structs, max_fields=4000, min_shards=16):
 
 
 def name_structs(structs, prefix="S"):
+    import dataclasses
     for i, s in enumerate(structs):
         s.name = f"{prefix}{i}"
-        for j, f in enumerate(s.fields):
-            if not f.name:
-                f.name = f"f{j}"
+        # fields may be shared between structs by the enumerators: give every struct its own copies
+        s.fields = [dataclasses.replace(f, name=f"f{j}") for j, f in enumerate(s.fields)]
     return structs
 
 
